@@ -461,51 +461,64 @@ func check(prop, tierArg string) int {
 		fatal(2, "property %s is not claimed (see MANIFEST.json not_applicable)", prop)
 	}
 	h := harnessByName(spec.harness)
-	fmt.Printf("verifctl: property=%s tier=%s VERIF_SEED=%d harness=%s race=%v\n", prop, tier, seed, h.name, h.race)
-	b := &build{h: h, scratch: newScratch(), keep: os.Getenv("VERIF_KEEP") != ""}
-	defer b.cleanup()
-	if err := b.prepare(); err != nil {
-		fmt.Fprintf(os.Stderr, "verifctl: prepare failed: %v\n", err)
+	// a property may be decided by several harness stages (e.g. a decoder stage
+	// and an API stage); they run one after the other and are aggregated
+	stages := []stageSpec{{harness: spec.harness, quickS: spec.quickS, thoroughS: spec.thoroughS}}
+	stages = append(stages, spec.extra...)
+	var results []workerRun
+	var buildS float64
+	var instrLog []string
+	for si, st := range stages {
+		sh := harnessByName(st.harness)
+		fmt.Printf("verifctl: property=%s tier=%s VERIF_SEED=%d harness=%s race=%v (stage %d/%d)\n", prop, tier, seed, sh.name, sh.race, si+1, len(stages))
+		t0 := time.Now()
+		b := &build{h: sh, scratch: newScratch(), keep: os.Getenv("VERIF_KEEP") != ""}
+		if err := b.prepare(); err != nil {
+			fmt.Fprintf(os.Stderr, "verifctl: prepare failed: %v\n", err)
+			b.cleanup()
+			return 2
+		}
+		if err := b.compile(); err != nil {
+			fmt.Fprintf(os.Stderr, "verifctl: build of the instrumented tree failed (not a verdict):\n%v\n%s", err, b.log.String())
+			b.cleanup()
+			return 2
+		}
+		buildS += time.Since(t0).Seconds()
+		instrLog = append(instrLog, b.instr...)
+		nworkers := envIntD("VERIF_WORKERS", 16)
+		wallS := st.quickS
+		if tier == "thorough" {
+			wallS = st.thoroughS
+		}
+		if v := envIntD("VERIF_WALL_S", 0); v > 0 {
+			wallS = v
+		}
+		env := []string{
+			"VERIF_PROP=" + prop, "VERIF_TIER=" + tier, "VERIF_SEED=" + strconv.FormatUint(seed, 10),
+			"VERIF_NWORKERS=" + strconv.Itoa(nworkers), "VERIF_WALL_S=" + strconv.Itoa(wallS),
+		}
+		if v := os.Getenv("VERIF_MAXRUNS"); v != "" {
+			env = append(env, "VERIF_MAXRUNS="+v)
+		}
+		stageResults := make([]workerRun, nworkers)
+		var wg sync.WaitGroup
+		for i := 0; i < nworkers; i++ {
+			wg.Add(1)
+			go func(i int) {
+				defer wg.Done()
+				e := append(append([]string{}, env...), "VERIF_WORKER="+strconv.Itoa(i))
+				// minimisation may add up to ~100 s after the budget
+				stageResults[i] = runWorker(b, i, e, time.Duration(wallS)*time.Second+240*time.Second)
+			}(i)
+		}
+		wg.Wait()
+		results = append(results, stageResults...)
 		b.cleanup()
-		return 2
 	}
-	if err := b.compile(); err != nil {
-		fmt.Fprintf(os.Stderr, "verifctl: build of the instrumented tree failed (not a verdict):\n%v\n%s", err, b.log.String())
-		b.cleanup()
-		return 2
-	}
-	buildS := time.Since(start).Seconds()
-	nworkers := envIntD("VERIF_WORKERS", 16)
-	wallS := spec.quickS
-	if tier == "thorough" {
-		wallS = spec.thoroughS
-	}
-	if v := envIntD("VERIF_WALL_S", 0); v > 0 {
-		wallS = v
-	}
-	env := []string{
-		"VERIF_PROP=" + prop, "VERIF_TIER=" + tier, "VERIF_SEED=" + strconv.FormatUint(seed, 10),
-		"VERIF_NWORKERS=" + strconv.Itoa(nworkers), "VERIF_WALL_S=" + strconv.Itoa(wallS),
-	}
-	if v := os.Getenv("VERIF_MAXRUNS"); v != "" {
-		env = append(env, "VERIF_MAXRUNS="+v)
-	}
-	results := make([]workerRun, nworkers)
-	var wg sync.WaitGroup
-	for i := 0; i < nworkers; i++ {
-		wg.Add(1)
-		go func(i int) {
-			defer wg.Done()
-			e := append(append([]string{}, env...), "VERIF_WORKER="+strconv.Itoa(i))
-			// minimisation may add up to ~100 s after the budget
-			results[i] = runWorker(b, i, e, time.Duration(wallS)*time.Second+240*time.Second)
-		}(i)
-	}
-	wg.Wait()
 
 	agg := aggregate(results)
 	agg.buildS = buildS
-	agg.instr = b.instr
+	agg.instr = instrLog
 	known := loadKnown()
 	code := 0
 	if len(agg.errors) > 0 {
@@ -543,6 +556,22 @@ func check(prop, tierArg string) int {
 		code = 2
 	}
 	return code
+}
+
+func unionStrings(a, b []string) []string {
+	for _, x := range b {
+		found := false
+		for _, y := range a {
+			if x == y {
+				found = true
+				break
+			}
+		}
+		if !found {
+			a = append(a, x)
+		}
+	}
+	return a
 }
 
 func firstLines(s string, n int) string {
@@ -648,8 +677,13 @@ func aggregate(results []workerRun) *aggT {
 			a.workerWall = o.WallS
 		}
 		if a.rule == "" {
-			a.rule, a.real, a.stub, a.assumptions = o.Rule, o.Real, o.Stub, o.Assumptions
+			a.rule = o.Rule
+		} else if o.Rule != "" && !strings.Contains(a.rule, o.Rule) {
+			a.rule += " || further stage (harness " + o.Harness + "): " + o.Rule
 		}
+		a.real = unionStrings(a.real, o.Real)
+		a.stub = unionStrings(a.stub, o.Stub)
+		a.assumptions = unionStrings(a.assumptions, o.Assumptions)
 	}
 	// one VIOLATION line per distinct signature
 	sort.Slice(a.violations, func(i, j int) bool { return a.violations[i].RunIndex < a.violations[j].RunIndex })
